@@ -2,7 +2,9 @@ import Check.C17
 import Check.C06
 import Check.C07
 import Check.C08
+import Check.C18
 import Check.C19
+import Check.C20
 import Check.Sys
 import Check.C09
 /-! upfcheck: `upfcheck <property> <trace>` replays every case of the trace through the Lean model
@@ -32,7 +34,9 @@ def checker (prop : String) : Option Checker :=
   | "C06" => some (stateless C06.check)
   | "C07" => some (stateless C07.check)
   | "C08" => some (stateless C08.check)
+  | "C18" => some (stateless C18.check)
   | "C19" => some (stateless C19.check)
+  | "C20" => some (stateless C20.check)
   | "C03" => some (sysChecker ["C03", "C01"])
   | "C02" => some (sysChecker ["C02", "C01", "C07"])
   | "C05" => some (sysChecker ["C05", "C01"])
